@@ -1,9 +1,11 @@
 (* Extraction of the C18 models for the correspondence check. ExtrOcamlBasic only. *)
 From V.lib Require Import Base.
-From V.c18 Require Import C18Model C18EntryModel C18HistModel.
+From V.c18 Require Import C18Model C18EntryModel C18HistModel C18DescModel.
 Require Import ExtrOcamlBasic.
 Separate Extraction
   asc adts encode_asc decode_asc canonical asc_roundtrip_ok
   new_adts adts_frequency encode_adts decode_adts adts_canonical no_sync_in first_sync adts_roundtrip_ok
   set_aac_descriptor set_aac_asc decode_entry entry_asc decode_entry_sr entry_asc_sr
-  hrun decode_asc_stream encode_asc_stream decode_adts_stream encode_adts_stream.
+  hrun decode_asc_stream encode_asc_stream decode_adts_stream encode_adts_stream
+  decode_descriptor decode_es_descriptor decode_esds_body encode_desc encode_es encode_esds es_dec_config
+  decode_box_header decode_box_header_sr list_eqb fourcc_esds.
